@@ -8,7 +8,7 @@ for id in $IDS; do
   d=seeded/$id
   [ -f $d/patch.diff ] || continue
   git -C /repo apply /verif/$d/patch.diff || { echo "$id: patch does not apply"; continue; }
-  checks="$id $(cat $d/also 2>/dev/null)"
+  checks="${id%%-*} $(cat $d/also 2>/dev/null)"
   res="{"
   for c in $checks; do
     out=$(./check $c --tier quick 2>&1); code=$?
